@@ -5,7 +5,7 @@ RULE = ("random valid knot vectors (degree 0..4, mixed multiplicities, several i
         "weights; every sub-degree j in 0..p, every parameter in {knots, ends, midpoints, random}; every index form "
         "(int, negative int, slice, [:, j], call), invalid indices.  Non-trivial: degree >= 2 or an interior knot; distinct = "
         "distinct (U, W, j, parameters)."
-        " Also: parameters k +- 1e-20 around every knot and the float next to every rational interior knot; every slice form (negative steps, open and explicit stops, empty) against python's own slicing; evaluation after in-place mutation of the shared KnotVector; degrees 5..10 (Bezier and one interior knot).")
+        " Also: parameters k +- 1e-20 around every knot and the float next to every rational interior knot; every slice form (negative steps, open and explicit stops, empty) against python's own slicing; evaluation after in-place mutation of the shared KnotVector; degrees 5..10 (Bezier and one interior knot); integer / dyadic knot vectors with the int / float basis evaluated first.")
 EXPLANATION = ("L2: Function(U)[:, j](u) vs the model's table+Horner row; L3: vs the Cox-de Boor recursion `cdb` run by the driver, "
                "plus non-negativity, support and partition of unity checked on the implementation's own values.")
 ASSUMPTIONS = ["weights positive"]
@@ -21,6 +21,13 @@ def run_case(ctx, case):
     rec.case(case, nontrivial=nontrivial_kv(U))
     rec.count("degree", str(p))
     rec.count("weights", "rational" if W is not None else "spline")
+    # the basis over numerically equal python-int / float knots evaluated first (tables memoised on knot tuples would be theirs)
+    if all(frac(x).denominator == 1 for x in U):
+        impl(lambda: Function([int(x) for x in U])((int(U[0]) + int(U[-1])) / 2))
+        rec.count("twin", "int-knots-first")
+    if all(F(float(x)) == frac(x) for x in U):
+        impl(lambda: Function([float(x) for x in U])((float(U[0]) + float(U[-1])) / 2))
+        rec.count("twin", "float-knots-first")
     r = impl(lambda: Function(list(U)))
     if r[0] != "ok":
         rec.violation("Function rejected a valid knot vector", case, observed=r[1])
@@ -186,6 +193,8 @@ def run(ctx):
     for i in range(budget(ctx, 120, 1500)):
         big = rng.random() < 0.15
         U = rand_kv(rng, bigknots=big, force_zero=(i % 8 == 0))
+        if i % 7 == 3:
+            U = rand_int_kv(rng, pmax=3, nintmax=2) if rng.random() < 0.5 else rand_dyadic_kv(rng, pmax=3, nintmax=2)
         p, n, _ = kv_info(U)
         W = rand_weights(rng, n, rng.choice(["none", "none", "pos", "const"]))
         run_case(ctx, ser(dict(kind="basis", U=U, W=W, us=params_for(rng, U, extra=2) + hair_params(U))))
